@@ -29,9 +29,10 @@ FLIP_SET = sorted(set([0x00, 0x01, 0x7F, 0x80, 0xBF, 0xC0, 0xC7] + list(range(0x
                       [0xE9, 0xF0, 0xF1, 0xF8, 0xF9, 0xFE, 0xFF]))
 FLIP_OFFSETS_PER_CHUNK = 3
 TEAR_OFFSETS_PER_CHUNK = 150
+FIELDS_PER_CHUNK = 2
 ALL_MASK = 511
 MAX_RERUNS = 8
-SHRINK_BUDGET = 70
+SHRINK_BUDGET = 30
 
 
 def flip_values(orig):
@@ -210,11 +211,20 @@ def a_desc(r, depth, parents):
 
 MARK_RE = re.compile(r"^@([LXD])(\d+)$", re.M)
 STAT_RE = re.compile(r"^@S (.*)$", re.M)
-FRAME_RE = re.compile(r"#\d+ 0x[0-9a-f]+ in (\S+) \S*src/core/(\w+\.[ch])")
+FRAME_RE = re.compile(r"#\d+ 0x[0-9a-f]+ in (\S+) (\S*src/core/\w+\.[ch])(?::(\d+))?")
 ASAN_RE = re.compile(r"ERROR: AddressSanitizer: ([^\n]*)")
 UBSAN_RE = re.compile(r"src/core/(\w+\.[ch]):\d+:\d+: runtime error: ([^\n]*)")
 OOM_RE = re.compile(r"(\S*src/core/(\w+\.c)):(\d+) - janet out of memory")
 ABORT_RE = re.compile(r"janet internal error at line \d+ in file \S*?(\w+\.[ch]): ([^\n]*)")
+ARITH_UB_RE = re.compile(r"^(left-shift|shift-exponent|\w+-is-outside-the-range-of-representable)[^/]*/|^signed-integer-overflow/(run_vm@JOP_(ADD|SUB|MUL|DIV|SHIFT|MOD|REM)\w*|cfun_it_\w+)$|/cfun_it_\w+$")
+ALLOC_WRAPPERS = {"janet_gcalloc", "janet_malloc", "janet_calloc", "janet_realloc", "janet_smalloc", "janet_scalloc",
+                  "janet_srealloc", "janet_abstract_begin", "janet_abstract", "janet_abstract_begin_threaded",
+                  "janet_abstract_threaded", "janet_unmarshal_abstract", "janet_unmarshal_abstract_threaded", "janet_free",
+                  "janet_sfree", "janet_string_begin", "janet_string", "janet_tuple_begin", "janet_tuple_n", "janet_struct_begin",
+                  "janet_array", "janet_array_weak", "janet_array_impl", "janet_buffer", "janet_buffer_init_impl",
+                  "janet_buffer_init", "janet_table", "janet_table_init_impl", "janet_table_init", "janet_memalloc_empty",
+                  "janet_memalloc_empty_local", "janet_symbol", "janet_keyword", "janet_symbol_gen", "__wrap_malloc",
+                  "__wrap_calloc", "__wrap_realloc", "__wrap_free"}
 _func_cache = {}
 
 
@@ -239,6 +249,35 @@ def function_at(path, line):
         pass
     _func_cache[key] = name
     return name
+
+
+_label_cache = {}
+LABEL_RE = re.compile(r"^\s*(?:case\s+(\w+)\s*:|VM_OP\((\w+)\))")
+FUNC_HDR_RE = re.compile(r"^[A-Za-z_].*\)\s*\{?\s*$")
+
+
+def label_at(path, line):
+    """nearest preceding `case X:` / `VM_OP(X)` label inside the same function ('' if none): tells apart the many
+    things that happen inside run_vm, peg_rule, unmarshal_one ... without using line numbers"""
+    key = (path, line)
+    if key in _label_cache:
+        return _label_cache[key]
+    out = ""
+    try:
+        with open(path, errors="replace") as f:
+            lines = f.read().split("\n")
+        for i in range(min(line, len(lines)) - 1, max(-1, line - 400), -1):
+            ln = lines[i]
+            m = LABEL_RE.match(ln)
+            if m:
+                out = m.group(1) or m.group(2)
+                break
+            if ln.startswith("}") or (ln and ln[0] not in " \t#/*" and FUNC_HDR_RE.match(ln)):
+                break
+    except OSError:
+        pass
+    _label_cache[key] = out
+    return out
 
 
 def read_log(log):
@@ -307,7 +346,17 @@ def sanitizer_facts(log):
         cls, kind = "resource", "rss-limit"
     f = FRAME_RE.search(log, pos)
     top = f.group(1) if f else "unknown"
-    # for frees/overflows inside libc interceptors the first src/core frame is the caller: fine
+    if f and f.group(3):
+        lab = label_at(f.group(2), int(f.group(3)))
+        if lab:
+            top += "@" + lab
+    # which object was overrun / used after free: the function that allocated it (first frame above the allocator wrappers)
+    a = re.search(r"^(?:allocated|previously allocated|freed) by thread", log[pos:], re.M)
+    if cls == "asan" and a:
+        for g in FRAME_RE.finditer(log, pos + a.start()):
+            if g.group(1) not in ALLOC_WRAPPERS:
+                top += "/obj=" + g.group(1)
+                break
     return cls, kind, top, log[pos:pos + 3000]
 
 
@@ -390,6 +439,10 @@ class C10(Driver):
             for name, b, _ in self.corpus():
                 for a in range(0, len(b), FLIP_OFFSETS_PER_CHUNK):
                     ch.append(("flip", name, a, min(len(b), a + FLIP_OFFSETS_PER_CHUNK)))
+            for name, b, _ in self.corpus():
+                hot = [i for i, f in enumerate(self.parsed(name)[0]) if img.is_hot(f)]
+                for a in range(0, len(hot), FIELDS_PER_CHUNK):
+                    ch.append(("field", name, a, min(len(hot), a + FIELDS_PER_CHUNK)))
             self._enum = ch
         return self._enum
 
@@ -405,7 +458,12 @@ class C10(Driver):
         data, dct = self.image(name)
         r = random.Random(seed)
         cases = []
-        for off in range(a, b):
+        if kind == "field":
+            fields = self.parsed(name)[0]
+            hot = [f for f in fields if img.is_hot(f)]
+            for f in hot[a:b]:
+                cases += self.sweep_cases(f, data, dct)
+        for off in (range(a, b) if kind != "field" else ()):
             if kind == "tear":
                 cases.append({"k": "tear", "b": 0, "lk": 1 if dct else off & 1, "mask": ALL_MASK, "aseed": off % 97,
                               "p": [[off, len(data) - off, ""]], "d": "tear@%d" % off})
@@ -415,7 +473,8 @@ class C10(Driver):
                                   "p": [[off, 1, "%02x" % v]], "d": "flip@%d:%02x->%02x" % (off, data[off], v)})
         return {"property": "C10", "leg": "unmarshal", "bases": [name], "cases": cases,
                 "enum": {"chunk": ci, "kind": kind, "image": name, "from": a, "to": b},
-                "knobs": {"seed": seed, "gc": r.choice(["bern 0.01", "bern 0.02", "bern 0.02", "bern 0.05"])}}
+                "knobs": {"seed": seed, "gc": r.choice(["bern 0.003", "bern 0.01", "bern 0.01", "bern 0.03"]), "explicit": 1,
+                          "faults": []}}
 
     # ---- generation ------------------------------------------------------------------------------
     def gen(self, seed, tier):
@@ -426,9 +485,9 @@ class C10(Driver):
         r = random.Random(seed)
         # the collector schedule is active for the whole batch; a collection costs ~1.5 ms under ASan (the core
         # environment is always live), so the denser the schedule the smaller the batch
-        gc, scale = r.choices([("bern 0.01", 1.0), ("bern 0.02", 1.0), ("bern 0.05", 0.6), ("bern 0.2", 0.2), ("every", 0.06)],
-                              [3, 4, 2, 1, 0.4])[0]
-        knobs = {"seed": seed, "gc": gc}
+        gc, scale = r.choices([("bern 0.003", 1.0), ("bern 0.01", 1.0), ("bern 0.03", 0.6), ("bern 0.2", 0.15), ("every", 0.05)],
+                              [3, 4, 1.5, 0.5, 0.2])[0]
+        knobs = {"seed": seed, "gc": gc, "explicit": 1, "faults": []}   # no simulator faults: the faults are in the plan
         if r.random() < 0.2:
             return self.gen_asm(r, knobs, scale)
         return self.gen_unmarshal(r, knobs, scale)
@@ -444,6 +503,9 @@ class C10(Driver):
         fields, weights, extents = self.parsed(name)
         _, _, oextents = self.parsed(other)
         n = len(data)
+        hot = [f for f in fields if img.is_hot(f)]
+        if hot and r.random() < 0.4:
+            return self.gen_sweep(r, knobs, scale, name, data, dct, hot)
         profile = r.choice([
             {"field": 6, "flip": 2, "tear": 0.5, "splice": 1, "dup": 0.5, "drop": 0.5, "graft": 1, "random": 0.3, "field2": 1, "ins": 0.3},
             {"field": 10, "field2": 3, "graft": 1},
@@ -454,16 +516,38 @@ class C10(Driver):
         ])
         kinds = sorted(profile)
         kw = [profile[k] for k in kinds]
-        ncases = max(4, int(r.choice([60, 100, 150, 150]) * scale))
+        ncases = max(4, int(r.choice([100, 150, 200, 300]) * scale))
         cases = []
         for _ in range(ncases):
             k = r.choices(kinds, kw)[0]
             c = self.make_case(k, r, data, odata, fields, weights, extents, oextents)
             c["lk"] = 1 if r.random() < (0.9 if dct else 0.5) else 0
-            c["mask"] = ALL_MASK if r.random() < 0.9 else r.randrange(512) | 16
+            c["mask"] = r.choice([ALL_MASK, ALL_MASK & ~256]) if r.random() < 0.9 else r.randrange(512) | 16
             c["aseed"] = r.randrange(1000)
             cases.append(c)
         return {"property": "C10", "leg": "unmarshal", "bases": [name], "cases": cases, "knobs": knobs}
+
+    def sweep_cases(self, f, data, dct):
+        out = []
+        for j, v in enumerate(img.sweep_values(f, len(data))):
+            out.append({"k": "field", "b": 0, "lk": 1 if dct else j & 1, "mask": ALL_MASK if j % 3 else ALL_MASK & ~256,
+                        "aseed": (f.off + j) % 997, "p": [[f.off, f.size, v.hex()]],
+                        "d": "%s@%d:%r->%s" % (f.role, f.off, f.val, v.hex())})
+        return out
+
+    def gen_sweep(self, r, knobs, scale, name, data, dct, hot):
+        """one image, a few trusted fields, every candidate value of each"""
+        want = max(20, int(r.choice([150, 200, 300]) * scale))
+        cases = []
+        w = [img.field_weight(f) for f in hot]
+        picked = set()
+        while len(cases) < want and len(picked) < len(hot):
+            f = r.choices(hot, w)[0]
+            if f.off in picked:
+                continue
+            picked.add(f.off)
+            cases += self.sweep_cases(f, data, dct)
+        return {"property": "C10", "leg": "unmarshal", "bases": [name], "cases": cases[:want + 80], "knobs": knobs, "sweep": 1}
 
     def make_case(self, k, r, data, odata, fields, weights, extents, oextents):
         n = len(data)
@@ -538,7 +622,7 @@ class C10(Driver):
 
     def gen_asm(self, r, knobs, scale=1.0):
         bi = r.randrange(len(ASM_SOURCES))
-        ncases = max(4, int(r.choice([40, 80, 120]) * scale))
+        ncases = max(4, int(r.choice([60, 100, 150]) * scale))
         style = r.choice(["mutate", "mutate", "random", "mixed"])
         cases = []
         for _ in range(ncases):
@@ -549,7 +633,8 @@ class C10(Driver):
                 if r.random() < 0.15:
                     ms.append(self.asm_mutation(r))
                 cases.append({"k": "asm-field", "b": 0, "m": ms})
-            cases[-1].update({"lk": 0, "mask": ALL_MASK if r.random() < 0.9 else r.randrange(512) | 16, "aseed": r.randrange(1000)})
+            cases[-1].update({"lk": 0, "mask": r.choice([ALL_MASK, ALL_MASK & ~256]) if r.random() < 0.9 else r.randrange(512) | 16,
+                              "aseed": r.randrange(1000)})
         return {"property": "C10", "leg": "asm", "bases": [bi], "cases": cases, "knobs": knobs}
 
     def asm_mutation(self, r):
@@ -644,6 +729,7 @@ class C10(Driver):
         where = "load" if phase == "L" else ("teardown" if phase == "D" else "exercise")
         leg = plan["leg"]
         fault = plan["cases"][idx]["k"].split("-")[0] if idx >= 0 else "any"
+        fault = {"dup": "splice", "drop": "splice"}.get(fault, fault)
         tail = "/phase=%s/fault=%s" % (where, fault)
         what = self.case_text(plan, idx) if idx >= 0 else "after the last case"
 
@@ -656,6 +742,10 @@ class C10(Driver):
                 if where != "load":
                     return "benign", None
                 return V("C10/resource/%s/in=%s" % (kind, leg), text[:1500])
+            if cls == "ubsan" and where != "load" and ARITH_UB_RE.search(kind + "/" + top):
+                # undefined arithmetic on numbers picked by the loaded code or by our arguments (shift counts, int/s64
+                # methods): ordinary source code reaches it too; it is neither a memory error nor the loader's business
+                return "benign-arith", None
             if kind.startswith("stack-overflow") and where != "load":
                 # unbounded recursion of loaded code on the C stack is reported separately from memory errors
                 return V("C10/%s/%s/in=%s" % (cls, kind, top), text[:2500])
@@ -663,6 +753,10 @@ class C10(Driver):
         if out.startswith("crash:"):
             if out == "crash:9":
                 return "benign", None      # killed from outside (memory pressure): no verdict
+            a = ABORT_RE.search(log)
+            if out == "crash:6" and a:     # janet_assert / JANET_EXIT that the sanitizer runtime did not intercept
+                am = re.search(r"janet internal error at line (\d+) in file (\S+?):", log)
+                return V("C10/abort/%s/in=%s" % (norm_msg(a.group(2)), function_at(am.group(2), int(am.group(1)))), a.group(0))
             return V("C10/signal/%s" % out.split(":")[1], log[-1500:])
         if out.startswith("exit:"):
             m = OOM_RE.search(log)
@@ -703,7 +797,7 @@ class C10(Driver):
             verdict, v = self.judge(plan, res, info)
             if verdict == "violation" and res.outcome == "timeout":
                 # confirm a hang of the loader on its own with a generous limit
-                res2 = r.run(self.render(plan, [info["idx"]]), self.timeout_ms)
+                res2 = r.run(self.render(plan, [info["idx"]]), 2 * self.timeout_ms)
                 info2 = read_log(res2.log or "")
                 verdict, v = self.judge(plan, res2, info2)
                 if res2.outcome == "ok":
@@ -718,6 +812,8 @@ class C10(Driver):
                 vs.append(v)
                 if killer is None:
                     killer = idx
+            elif verdict == "benign-arith":
+                benign["arith_ub_in_exercise"] = benign.get("arith_ub_in_exercise", 0) + 1
             else:
                 tag = "case_%s_in_exercise" % res.outcome.split(":")[0]
                 benign[tag] = benign.get(tag, 0) + 1
@@ -777,16 +873,20 @@ class C10(Driver):
         try:
             chunks = self.enum_chunks()
             ex = {}
-            for kind in ("tear", "flip"):
+            for kind in ("tear", "flip", "field"):
                 ids = [i for i, c in enumerate(chunks) if c[0] == kind]
                 done = [i for i in ids if i in enum_done]
                 offsets = sum(chunks[i][3] - chunks[i][2] for i in ids)
                 ex[kind] = {
                     "exhaustive": len(done) == len(ids) and len(ids) > 0,
-                    "over": "every offset of every seed image" + (" x substitution set {00,01,7F,80,BF,C0,C7,C8..E8 (lead bytes),"
-                                                                  "E9,F0,F1,F8,F9,FE,FF,orig+1,orig-1}" if kind == "flip" else ""),
-                    "seed_images": len(self.corpus()), "offsets_total": offsets,
-                    "offsets_covered": sum(chunks[i][3] - chunks[i][2] for i in done),
+                    "over": {"tear": "every offset of every seed image",
+                             "flip": "every offset of every seed image x substitution set {00,01,7F,80,BF,C0,C7,C8..E8 (lead "
+                                     "bytes),E9,F0,F1,F8,F9,FE,FF,orig+1,orig-1}",
+                             "field": "every trusted field (fiber/frame layout, environment geometry, reference numbers, "
+                                      "function header counts, PEG/channel headers) of every seed image x its boundary "
+                                      "value list"}[kind],
+                    "seed_images": len(self.corpus()), "positions_total": offsets,
+                    "positions_covered": sum(chunks[i][3] - chunks[i][2] for i in done),
                     "cases_executed": sum(enum_done[i] for i in done),
                 }
             out["exhaustive"] = ex
